@@ -84,6 +84,7 @@ class Cfg:
         self.min_types = 0
         self.redactors = True
         self.union_struct_bias = False
+        self.doc_escapes = False      # doc words like C:\\users (\\u... in generated docstrings)
         self.omitted = True           # Omitted(...) annotations (change what is encoded)
         self.nullable_aliases = False  # `alias N = String?`: stone treats fields of such a type
         #                                inconsistently (DESIGN 5) -> only the frontend checks enable it
@@ -860,6 +861,8 @@ class Builder:
         lines = []
         for _ in range(1 if g.p(70) else g.int(2, 3)):
             words = [g.choice(DOC_WORDS) for _ in range(g.int(1, 6))]
+            if cfg.doc_escapes and g.p(15):
+                words.append(g.choice(['C:\\users', 'a\\N{x}', '\\x4', 'tab\\there', "'''", '\"\"\"']))
             if cfg.docrefs and g.p(35):
                 words.insert(g.int(0, len(words)), self.doc_ref(ns, owner, allow_field_ref))
             lines.append(' '.join(w for w in words if w))
